@@ -19,7 +19,7 @@ REQUIRED = {"c05_child_lists>=3": 1000, "c05_enclosed_by_decoded_top": 100, "c05
 
 
 def plan(tier, seed):
-    return ec.plan(ID, tier, seed)
+    return ec.plan(ID, tier, seed, stride3=12)
 
 
 def run_shard(spec, ctx):
